@@ -238,6 +238,8 @@ def default_value(I, ty):
     if t == 'Response':
         from .models_cw import new_response
         return new_response()
+    if t == 'Coins':
+        return St('cosmwasm_std::Coins', [Vc([])], ['coins'])
     raise Unsupported('Default for ' + ty)
 
 
